@@ -148,7 +148,7 @@ impl Ls {
         let metadata = match file_info.metadata() {
             Ok(metadata) => metadata,
             Err(e) => {
-                writeln!(&mut stderr(), "Error getting metadata for {}", e).unwrap();
+                let _ = writeln!(&mut stderr(), "Error getting metadata for {}", e);
                 matcher_io.set_exit_code(1);
                 return;
             }
@@ -211,13 +211,12 @@ impl Ls {
             Ok(_) => {}
             Err(e) => {
                 if print_error_message {
-                    writeln!(
+                    let _ = writeln!(
                         &mut stderr(),
                         "Error writing {:?} for {}",
                         file_info.path().to_string_lossy(),
                         e
-                    )
-                    .unwrap();
+                    );
                     matcher_io.set_exit_code(1);
                 }
             }
@@ -279,13 +278,12 @@ impl Ls {
             Ok(_) => {}
             Err(e) => {
                 if print_error_message {
-                    writeln!(
+                    let _ = writeln!(
                         &mut stderr(),
                         "Error writing {:?} for {}",
                         file_info.path().to_string_lossy(),
                         e
-                    )
-                    .unwrap();
+                    );
                     matcher_io.set_exit_code(1);
                 }
             }
